@@ -8,7 +8,7 @@ from autobean_refactor import models
 
 CASES = {'quick': 2400, 'thorough': 48000}
 GATES = {
-    'quick': {'evaluations': 20000, 'value_roundtrips': 12000, 'lexemes_accepted': 3000, 'assignment_steps': 4000,
+    'quick': {'refused_raw_text_assignments': 100, 'evaluations': 20000, 'value_roundtrips': 12000, 'lexemes_accepted': 3000, 'assignment_steps': 4000,
               'classes_value_roundtrip': 14, 'terminals_with_lexemes': 40, 'hostile_comment_values': 300},
     'thorough': {'evaluations': 700000, 'classes_value_roundtrip': 14, 'terminals_with_lexemes': 40},
 }
@@ -193,6 +193,16 @@ def _gen_lexemes(name, rx, seed, n):
     return _LEX[key]
 
 
+BAD_RAW = {
+    'Date': ['2021-02-30', '2000-13-01', '2000-04-31', '2000/00/10', '20-01-01'],
+    'Number': ['12.5O', '1..2', '1,2,', 'abc', '--1'],
+    'EscapedString': ['noquotes', '"unterminated'],
+    'Bool': ['MAYBE', 'true'],
+    'Currency': ['usd', '1'],
+    'Account': ['assets:foo', 'Assets'],
+}
+
+
 def run_case(col, r, idx):
     terms = _terminals()
     names = sorted(terms)
@@ -226,6 +236,28 @@ def run_case(col, r, idx):
     for _ in range(r.randint(2, 6)):
         kind = r.choice(['value', 'raw_text', 'indent']) if cls is models.BlockComment else r.choice(['value', 'raw_text'])
         v = values.value_for(r, cls)
+        if r.random() < 0.12:
+            # a raw text the type cannot mean (often a well-formed lexeme: 2021-02-30). If the assignment is refused the token must
+            # be exactly what it was - text, value, indent - so that the two still describe each other; if the type takes it, the
+            # sequence has left the domain and ends without a verdict.
+            bad = r.choice(BAD_RAW.get(cname, []) + ['garbage', ''])
+            before = (t.raw_text, t.value, getattr(t, 'indent', None))
+            try:
+                t.raw_text = bad
+            except Exception as e:
+                col.ev()
+                col.count('refused_raw_text_assignments')
+                col.nontrivial(cname, tuple(log), 'refused', bad)
+                after = (t.raw_text, t.value, getattr(t, 'indent', None))
+                if after != before or not _same_value(cls, after[1], before[1]):
+                    col.violation(f'refused-raw-text-changed-token:{cname}', f'raw_text = {bad!r} raised {type(e).__name__}; the token now has '
+                                  f'raw_text {after[0]!r} / value {after[1]!r}, before the call {before[0]!r} / {before[1]!r}',
+                                  {'class': cname, 'log': log + [('raw_text (refused)', bad)]})
+                    return
+                log.append(('raw_text (refused)', bad))
+                continue
+            col.count('out_of_domain_raw_text_accepted')
+            return
         try:
             if kind == 'value':
                 t.value = v
